@@ -153,8 +153,9 @@ type vfC07Plan struct {
 	// Gates: the n-th UDP() dial / Hook call for sid blocks (durably, on the world's cond) until the
 	// driver opens the gate of that session: a dial / hook that takes as long as the harness wants
 	// without any sleep (see vfC07World.AwaitSweepThenOpen).
-	DialGate map[uint32]map[int]bool `json:"dial_gate,omitempty"`
-	HookGate map[uint32]map[int]bool `json:"hook_gate,omitempty"`
+	DialGate  map[uint32]map[int]bool `json:"dial_gate,omitempty"`
+	WriteGate map[uint32]map[int]bool `json:"write_gate,omitempty"` // n-th WriteTo of sid's sockets (if it succeeds)
+	HookGate  map[uint32]map[int]bool `json:"hook_gate,omitempty"`
 	// EndCloseSleep: the first eventLogger.Close called after the IO ended (i.e. by Run's final
 	// cleanup) sleeps this long (virtual; no lock is held there), so that a sweep instant can fall
 	// into the middle of the final cleanup.
@@ -647,6 +648,15 @@ func (w *vfC07World) AwaitSweepThenOpen(sm *udpSessionManager, sid uint32, stack
 	return outcome
 }
 
+// OpenGate releases the gated call of sid that is parked (or the next one to arrive).
+func (w *vfC07World) OpenGate(sid uint32) {
+	w.mu.Lock()
+	w.add(vfC07Ev{Kind: "gate", Sid: sid, Err: "open"})
+	w.gateOpen[sid] = true
+	w.cond.Broadcast()
+	w.mu.Unlock()
+}
+
 // ---- udpEventLogger
 
 type vfC07ELog struct{ w *vfC07World }
@@ -770,6 +780,16 @@ func (s *vfC07Sock) WriteTo(b []byte, addr string) (int, error) {
 	}
 	if fail {
 		return 0, &vfC07Err{Kind: "write-fail", Sid: s.sid, Sock: s.id, N: n}
+	}
+	if w.plan.WriteGate[s.sid][n] {
+		// The datagram has been handed to the (open) socket and is on its way; the call itself
+		// returns only when the driver opens the gate -- a send that takes long. The receive loop
+		// holds no lock while it writes, so this may even be a wait across virtual time; it is
+		// durable (cond), never a sleep.
+		w.inflight++
+		w.waitGate(true, s.sid, seq)
+		w.inflight--
+		w.add(vfC07Ev{Kind: "wgate", Ph: 2, Sid: s.sid, Sock: s.id, No: no})
 	}
 	return len(b), nil
 }
